@@ -49,6 +49,16 @@ class Monitor:
                 if r is res:
                     prev_res = rs[i - 1] if i > 0 else None
                     next_res = rs[i + 1] if i + 1 < len(rs) else None
+        # a neighbour whose CA is more than 4.5 A from this residue's CA is not bonded to it (3.8 A across a
+        # trans peptide bond, 3.0 A across a cis one): there is a gap in the chain between the two
+        gaps = set()
+        ca = res.get_atom("CA") if res.has_atom("CA") else None
+        for lab, r in (("next", next_res), ("prev", prev_res)):
+            if r is not None and ca is not None and r.has_atom("CA"):
+                o = r.get_atom("CA")
+                if ((ca.x - o.x) ** 2 + (ca.y - o.y) ** 2 + (ca.z - o.z) ** 2) ** 0.5 > 4.5:
+                    gaps.add(lab)
+        fit["gaps"] = sorted(gaps)
         out = []
         for rp, dp in zip(fit["refs"], fit["defs"]):
             t = next((n for n, a in ref.map.items() if tuple(map(float, a.coords)) == dp), None)
@@ -176,6 +186,28 @@ class Monitor:
 
         optimize.Optimize.make_atom_with_no_bonds = nb
         self._undo.append(lambda: setattr(optimize.Optimize, "make_atom_with_no_bonds", orig_nb))
+
+        from pdb2pqr import biomolecule as bm_
+        from pdb2pqr.config import PEPTIDE_DIST
+
+        orig_ub = bm_.Biomolecule.update_bonds
+        mon.links = []
+
+        def ub(self_):
+            out = orig_ub(self_)
+            if len(mon.links) < 4000:
+                for ch in self_.chains:
+                    for i in range(len(ch.residues) - 1):
+                        r1, r2 = ch.residues[i], ch.residues[i + 1]
+                        if not isinstance(r1, aa.Amino) or not isinstance(r2, aa.Amino):
+                            continue
+                        c, n = r1.get_atom("C"), r2.get_atom("N")
+                        far = c is not None and n is not None and ((c.x - n.x) ** 2 + (c.y - n.y) ** 2 + (c.z - n.z) ** 2) ** 0.5 > PEPTIDE_DIST
+                        mon.links.append({"hasC": c is not None, "hasN": n is not None, "far": bool(far), "pn": getattr(r1, "peptide_n", None) is not None, "pc": getattr(r2, "peptide_c", None) is not None, "pair": f"{r1} / {r2}"})
+            return out
+
+        bm_.Biomolecule.update_bonds = ub
+        self._undo.append(lambda: setattr(bm_.Biomolecule, "update_bonds", orig_ub))
 
         orig_rbt = aa.Amino.rebuild_tetrahedral
         mon.thirds = []
